@@ -77,6 +77,8 @@ def gen(prop, stream, tier, avoid):
                 for _ in range(nd_)]
         spec = shapes.gen_shape(rng, kind=kind, max_size=8 if kind == "curve" else (6 if kind == "surface" else 4), degrees=degs)
         spec["delta"] = rng.pick([0.5, 0.25, 0.2]) if kind != "curve" else rng.pick([0.25, 0.125, 0.1])
+        if kind != "curve" and rng.chance(0.5):
+            spec["deltas"] = [rng.pick([0.5, 0.25, 0.2]) for _ in range(nd_)]      # equal densities mask direction mix-ups
         if rng.chance(0.25) and "unnormalised" not in avoid:
             # knot vectors kept in their original range a + L*[0,1] (normalize_kv=False), a and L dyadic per direction
             spec["aL"] = [list(rng.pick(AL_PAIRS)) for _ in range(nd_)]
@@ -239,7 +241,7 @@ class Live:
         if nd == 1:
             self.obj.delta = spec["delta"]
         else:
-            self.obj.delta = tuple([spec["delta"]] * nd)
+            self.obj.delta = tuple(spec.get("deltas") or [spec["delta"]] * nd)
         self.nd = nd
         self.num = num
         self.F0 = shapes.model_of_spec(spec, num)
